@@ -825,8 +825,12 @@ class ExecS(Exec):
         if iterinfo is not None:
             bind(b_)
         self.cx.covers.append((f"loop{no}.body", list(b_.pc)))
+        new_names = {}
         for o in self.ex_block(s.body, b_):
             if o.kind in ("normal", "continue"):
+                for k_, v_ in o.st.env.items():
+                    if k_ not in h.env and not k_.startswith(("$", "__")) and k_ not in new_names:
+                        new_names[k_] = v_
                 s3 = o.st.copy()
                 if nx:
                     s3.env[nx] = step(s3.env)
@@ -836,6 +840,15 @@ class ExecS(Exec):
                 results.append(o.st)
             else:
                 outs.append(o)
+        # names first assigned inside the loop body exist after the loop (if it ran): arbitrary values of that shape
+        for k_, v_ in new_names.items():
+            try:
+                nv = fresh_like(v_, k_ + ".after_loop")
+            except Unsupported:
+                continue
+            for r_ in results:
+                if k_ not in r_.env:
+                    r_.env[k_] = nv
         outs.append(Outcome("normal", self.merge_states(base, results)))
         return outs
 
